@@ -40,7 +40,7 @@ theorem place_twice_refused (w : World) (t : Txn) (oid : Nat) (v : Option Int)
     (w.txnPlace t oid v true true).2.2 = .error .alreadyPlaced := by
   unfold txnPlace
   simp only [Bool.not_true, Bool.and_false, Bool.false_eq_true, if_false]
-  simp only [h, if_true]
+  simp only [h, Bool.true_or, if_true]
 
 /-- C15.4 every view is a filter of the primary list: an order is in the strategy's view iff it is
     in the blotter and belongs to that strategy, in blotter order -/
